@@ -14,227 +14,8 @@
   string operations.  What a theorem cannot reach - that cmd.exe reads the rendered text as the structured lines and
   executes them as `Sem/Cmd` says - is decided in every run against lib/cmdsim.py, which works on the text.
 -/
-import TshVerif.Lemmas.SemBAssign
-import TshVerif.Sem.CmdFrag
-namespace Tsh.C05S
-open Tsh Tsh.Tr Tsh.Batch Tsh.Sem Tsh.SemB
-
-theorem assign_src {vars : List Var} {vals : List Expr} (hlen : vars.length = vals.length) (f : Nat) (mk : List Var → List Expr → Stmt)
-    (hmk : ∀ c, Src32.execStmt (f + 1) (mk vars vals) c =
-      (if vars.length == vals.length then
-        match Src32.evalList c.env vals with
-        | some vs => some (.normal, { c with env := Src.storeAll c.env vars vs })
-        | none => none
-      else none)) :
-    ∀ c o c', Src32.execStmt (f + 1) (mk vars vals) c = some (o, c') →
-      ∃ vs, Src32.evalList c.env vals = some vs ∧ o = .normal ∧ c' = { c with env := Src.storeAll c.env vars vs } := by
-  intro c o c' hc
-  rw [hmk] at hc
-  simp only [hlen, beq_self_eq_true, if_true] at hc
-  split at hc
-  · rename_i vs hvs
-    simp only [Option.some.injEq, Prod.mk.injEq] at hc
-    obtain ⟨rfl, rfl⟩ := hc
-    exact ⟨vs, hvs, rfl, rfl⟩
-  · simp at hc
-
-theorem assignAny_sem {vars : List Var} {vals : List Expr} (hlen : vars.length = vals.length) (hne : vars ≠ [])
-    (hg : (vars.all (fun x => goodName x.name)) = true) {s s' : St} (h0 : s.funcs = [])
-    (h : assignValues conv vars vals s = .ok ((), s')) (src : Src.SCfg → Option (Out × Src.SCfg))
-    (hsrc : ∀ c o c', src c = some (o, c') →
-      ∃ vs, Src32.evalList c.env vals = some vs ∧ o = .normal ∧ c' = { c with env := Src.storeAll c.env vars vs }) :
-    StmtSemB src s s' := by
-  by_cases hc : vars.length > 1
-  · exact assignNB_sem hlen hc hg h0 h src hsrc
-  · match vars, vals, hlen, hne, hc with
-    | [x], [e], _, _, _ =>
-      refine assign1B_sem (by simpa using hg) h0 h src ?_
-      intro c o c' hs
-      obtain ⟨vs, hvs, eo, ec⟩ := hsrc c o c' hs
-      simp only [Src32.evalList] at hvs
-      split at hvs
-      · rename_i v vs' hv hnil
-        simp only [Option.some.injEq] at hnil hvs
-        subst hnil; subst hvs
-        exact ⟨v, hv, eo, by rw [ec]; rfl⟩
-      · simp at hvs
-    | [], _, _, hne, _ => exact absurd rfl hne
-    | _ :: _ :: _, _, _, _, hc => simp at hc
-    | [_], [], hlen, _, _ => simp at hlen
-    | [_], _ :: _ :: _, hlen, _, _ => simp at hlen
-
-theorem stmtSemB_of_straight (st : Stmt) (hs : straightStmt st = true) (s s' : St) (h0 : s.funcs = [])
-    (h : evalStmt conv st s = .ok ((), s')) (f : Nat) : StmtSemB (fun c => Src32.execStmt (f + 1) st c) s s' := by
-  match st, hs with
-  | .varDef vars vals, hs =>
-    unfold evalStmt at h
-    simp only [straightStmt, Bool.and_eq_true, beq_iff_eq, Bool.not_eq_true', List.isEmpty_eq_false_iff] at hs
-    exact assignAny_sem hs.1.1 hs.1.2 hs.2 h0 h _ (assign_src hs.1.1 f Stmt.varDef (fun c => by simp only [Src32.execStmt]; rfl))
-  | .assign vars vals, hs =>
-    unfold evalStmt at h
-    simp only [straightStmt, Bool.and_eq_true, beq_iff_eq, Bool.not_eq_true', List.isEmpty_eq_false_iff] at hs
-    exact assignAny_sem hs.1.1 hs.1.2 hs.2 h0 h _ (assign_src hs.1.1 f Stmt.assign (fun c => by simp only [Src32.execStmt]; rfl))
-  | .print es, _ =>
-    unfold evalStmt at h
-    have := printB_sem h0 h
-    intro c o c' hc
-    exact this c o c' (by simpa [Src32.execStmt] using hc)
-
-theorem stmtSemB_panic (e : Expr) (s s' : St) (h0 : s.funcs = [])
-    (h : evalStmt conv (.panic e) s = .ok ((), s')) (f : Nat) : StmtSemB (fun c => Src32.execStmt (f + 1) (.panic e) c) s s' := by
-  unfold evalStmt at h
-  have := panicB_sem h0 h
-  intro c o c' hc
-  exact this c o c' (by simpa [Src32.execStmt] using hc)
-
-theorem straightStmt_normal (st : Stmt) (hs : straightStmt st = true) (f : Nat) (c : Src.SCfg) (o : Out) (c' : Src.SCfg)
-    (h : Src32.execStmt f st c = some (o, c')) : o = .normal := by
-  cases f with
-  | zero => simp [Src32.execStmt] at h
-  | succ f =>
-    match st, hs with
-    | .varDef vars vals, _ =>
-      simp only [Src32.execStmt] at h
-      split at h
-      · split at h
-        · simp only [Option.some.injEq, Prod.mk.injEq] at h; exact h.1.symm
-        · simp at h
-      · simp at h
-    | .assign vars vals, _ =>
-      simp only [Src32.execStmt] at h
-      split at h
-      · split at h
-        · simp only [Option.some.injEq, Prod.mk.injEq] at h; exact h.1.symm
-        · simp at h
-      · simp at h
-    | .print es, _ =>
-      simp only [Src32.execStmt] at h
-      split at h
-      · split at h
-        · simp only [Option.some.injEq, Prod.mk.injEq] at h; exact h.1.symm
-        · simp at h
-      · simp at h
-
-theorem runLinesB_append_normal {a : List BLine} {c c1 : Cfg} (h : runLinesB a c = some (.normal, c1)) (b : List BLine) :
-    runLinesB (a ++ b) c = runLinesB b c1 := by
-  induction a generalizing c with
-  | nil => simp only [runLinesB, Option.some.injEq, Prod.mk.injEq] at h; rw [← h.2]; rfl
-  | cons l ls ih =>
-    simp only [runLinesB] at h
-    split at h
-    · rename_i c2 hs
-      simp only [List.cons_append, runLinesB, hs]
-      exact ih h
-    · rename_i r hne
-      cases hs : stepB l c with
-      | none => rw [hs] at h; simp at h
-      | some q =>
-        obtain ⟨o, c2⟩ := q
-        rw [hs] at h
-        simp only [Option.some.injEq, Prod.mk.injEq] at h
-        obtain ⟨rfl, rfl⟩ := h
-        exact absurd hs (hne _)
-
-theorem panicLast_sem (e : Expr) (s s' : St) (h0 : s.funcs = []) (h : evalStmts conv [.panic e] s = .ok ((), s'))
-    (fuel : Nat) (c : Src.SCfg) (o : Out) (c' : Src.SCfg) (hr : Src32.execStmts fuel [.panic e] c = some (o, c')) :
-    ∃ new n, Adv s s' new n ∧
-      ∀ ρ, Agree c.env ρ → ∃ ρ', runLinesB new.reverse ⟨ρ, c.out⟩ = some (o, ⟨ρ', c'.out⟩) ∧
-        (o = .normal → Agree c'.env ρ' ∧ ρ' "_e" = ρ "_e") := by
-  unfold evalStmts at h
-  obtain ⟨_, s1, h1, h2⟩ := bindB_ok h
-  unfold evalStmts at h2
-  obtain ⟨_, es⟩ := pureB_ok h2
-  rw [es]
-  cases fuel with
-  | zero => simp [Src32.execStmts] at hr
-  | succ f =>
-    cases f with
-    | zero => simp [Src32.execStmts, Src32.execStmt] at hr
-    | succ f =>
-      simp only [Src32.execStmts] at hr
-      cases hx : Src32.execStmt (f + 1) (.panic e) c with
-      | none => simp [hx] at hr
-      | some r =>
-        obtain ⟨o1, c1⟩ := r
-        have ho1 : o1 = .exit 1 := by
-          simp only [Src32.execStmt] at hx
-          split at hx
-          · split at hx
-            · simp only [Option.some.injEq, Prod.mk.injEq] at hx; exact hx.1.symm
-            · simp at hx
-          · simp at hx
-        subst ho1
-        simp only [hx, Option.some.injEq, Prod.mk.injEq] at hr
-        obtain ⟨rfl, rfl⟩ := hr
-        exact stmtSemB_panic e s s1 h0 h1 f c _ _ hx
-
-/-- the straight-line program theorem, from any converter state outside a function -/
-theorem stmtsB_sem : ∀ (p : List Stmt), straight p = true → ∀ (s s' : St), s.funcs = [] → evalStmts conv p s = .ok ((), s') →
-    ∀ fuel c o c', Src32.execStmts fuel p c = some (o, c') → ∃ new n, Adv s s' new n ∧
-      ∀ ρ, Agree c.env ρ → ∃ ρ', runLinesB new.reverse ⟨ρ, c.out⟩ = some (o, ⟨ρ', c'.out⟩) ∧
-        (o = .normal → Agree c'.env ρ' ∧ ρ' "_e" = ρ "_e")
-  | [], _, s, s', _, h, fuel, c, o, c', hr => by
-    unfold evalStmts at h
-    obtain ⟨_, es⟩ := pureB_ok h
-    cases fuel with
-    | zero => simp [Src32.execStmts] at hr
-    | succ f =>
-      simp only [Src32.execStmts, Option.some.injEq, Prod.mk.injEq] at hr
-      obtain ⟨rfl, rfl⟩ := hr
-      exact ⟨[], 0, by rw [es]; exact Adv.refl s, fun ρ ha => ⟨ρ, rfl, fun _ => ⟨ha, rfl⟩⟩⟩
-  | st :: st2 :: rest, hs, s, s', h0, h, fuel, c, o, c', hr => by
-    have hs' : straightStmt st = true ∧ straight (st2 :: rest) = true := by
-      cases st <;> simp_all [straight]
-    exact stmtsB_cons st (st2 :: rest) hs'.1 (stmtsB_sem (st2 :: rest) hs'.2) s s' h0 h fuel c o c' hr
-  | [st], hs, s, s', h0, h, fuel, c, o, c', hr => by
-    by_cases hp : ∃ e, st = .panic e
-    · obtain ⟨e, rfl⟩ := hp
-      exact panicLast_sem e s s' h0 h fuel c o c' hr
-    · have hs' : straightStmt st = true := by
-        cases st <;> simp_all [straight, straightStmt]
-      exact stmtsB_cons st [] hs' (stmtsB_sem [] rfl) s s' h0 h fuel c o c' hr
-where
-  stmtsB_cons (st : Stmt) (rest : List Stmt) (hst : straightStmt st = true)
-      (ih : ∀ (s s' : St), s.funcs = [] → evalStmts conv rest s = .ok ((), s') →
-        ∀ fuel c o c', Src32.execStmts fuel rest c = some (o, c') → ∃ new n, Adv s s' new n ∧
-          ∀ ρ, Agree c.env ρ → ∃ ρ', runLinesB new.reverse ⟨ρ, c.out⟩ = some (o, ⟨ρ', c'.out⟩) ∧
-            (o = .normal → Agree c'.env ρ' ∧ ρ' "_e" = ρ "_e"))
-      (s s' : St) (h0 : s.funcs = []) (h : evalStmts conv (st :: rest) s = .ok ((), s'))
-      (fuel : Nat) (c : Src.SCfg) (o : Out) (c' : Src.SCfg) (hr : Src32.execStmts fuel (st :: rest) c = some (o, c')) :
-      ∃ new n, Adv s s' new n ∧
-        ∀ ρ, Agree c.env ρ → ∃ ρ', runLinesB new.reverse ⟨ρ, c.out⟩ = some (o, ⟨ρ', c'.out⟩) ∧
-          (o = .normal → Agree c'.env ρ' ∧ ρ' "_e" = ρ "_e") := by
-    unfold evalStmts at h
-    obtain ⟨_, s1, h1, h2⟩ := bindB_ok h
-    cases fuel with
-    | zero => simp [Src32.execStmts] at hr
-    | succ f =>
-      cases f with
-      | zero =>
-        simp only [Src32.execStmts] at hr
-        cases st <;> simp [Src32.execStmt] at hr
-      | succ f =>
-        simp only [Src32.execStmts] at hr
-        cases hx : Src32.execStmt (f + 1) st c with
-        | none => simp [hx] at hr
-        | some r =>
-          obtain ⟨o1, c1⟩ := r
-          have ho1 := straightStmt_normal st hst _ c o1 c1 hx
-          subst ho1
-          simp only [hx] at hr
-          obtain ⟨new1, n1, ad1, sem1⟩ := stmtSemB_of_straight st hst s s1 h0 h1 f c _ _ hx
-          have h01 : s1.funcs = [] := by rw [ad1.funcs]; exact h0
-          obtain ⟨new2, n2, ad2, sem2⟩ := ih s1 s' h01 h2 (f + 1) c1 o c' hr
-          refine ⟨new2 ++ new1, n1 + n2, ad1.trans ad2, ?_⟩
-          intro ρ ha
-          obtain ⟨ρ1, run1, post1⟩ := sem1 ρ ha
-          obtain ⟨ag1, e1⟩ := post1 rfl
-          obtain ⟨ρ2, run2, post2⟩ := sem2 ρ1 ag1
-          refine ⟨ρ2, ?_, fun ho => ⟨(post2 ho).1, by rw [(post2 ho).2, e1]⟩⟩
-          rw [List.reverse_append, runLinesB_append_normal run1]
-          exact run2
-
-end Tsh.C05S
+import TshVerif.Lemmas.SemBStraight
+import TshVerif.Lemmas.SemBCtl
 
 namespace Tsh.C05S
 open Tsh Tsh.Tr Tsh.Batch Tsh.Sem Tsh.SemB
@@ -286,7 +67,7 @@ theorem batch_preserves_straight_line_semantics_partial (p : Program) (hs : stra
         · rw [e3, ad.code, hs1.2.1, List.append_nil]
           exact run
         · show ρ' "_e" = "0"
-          rw [(post ho).2]; exact set_same _ _ _
+          rw [(post ho).2.1]; exact set_same _ _ _
       · simp at hr
   · simp at hc
   · simp at hc
@@ -304,5 +85,57 @@ example : straight sample = true := by decide
 #guard (match compile sample with
   | .ok ls => SemB.run 1000 ls == some (.exit 1, ["42 1 a b", "panic: x is 42"])
   | _ => false)
+
+/-! ### conditionals: the script as a block tree -/
+
+/-- **The Batch script means what the program means (programs with conditionals).**  For every program `p` of the scalar
+    fragment without loops - definitions, assignments (single or simultaneous), print, panic anywhere, if / else-if / else
+    chains nested to any depth: the emitted script is the start code, the helper routines, NO function block, the lines of a
+    block tree `cmds` (`Sem/CmdTree`: if-chains with their end labels `_i<k>`, `goto` to that label at the end of every
+    branch, `) else if` / `) else` blocks) and the two end lines; and whenever the 32-bit source semantics runs `p` to an
+    outcome `o` with printed lines `out`, the tree runs under the structured reading of cmd.exe's rules (`ExecBs`) from the
+    store the start code leaves to the same outcome with the same printed lines; at a normal end the exit code variable still
+    holds 0.  All else-if conditions are evaluated before the first test, as the project states.  `_partial`: loops,
+    break / continue, functions, slices and string operations are not covered. -/
+theorem batch_preserves_conditional_semantics_partial (p : Program) (hf : Src.fragStmts p = true) (hn : noLoopStmts p = true)
+    (ls : List BLine) (hc : compile p = .ok ls) :
+    ∃ (st : St) (cmds : List BCmd),
+      ls = st.startCode.reverse ++ helperLines st ++ flats none cmds ++ [.label "end", .raw "endlocal & exit /B %_e%"] ∧
+      ∀ fuel o out, Src32.runProgram fuel p = some (o, out) →
+        ∃ c' : Cfg, ExecBs cmds ⟨startStore, []⟩ o c' ∧ c'.out = out ∧ (o = .normal → c'.ρ "_e" = "0") := by
+  unfold compile at hc
+  split at hc
+  · rename_i u s hrun
+    simp only [Res.ok.injEq] at hc
+    unfold evalProgram at hrun
+    obtain ⟨_, s1, h1, hrun⟩ := bindB_ok hrun
+    obtain ⟨_, s2, h2, h3⟩ := bindB_ok hrun
+    have e3 : s = s2 := by
+      have : (pure () : BM Unit) s2 = .ok (u, s) := h3
+      exact (pureB_ok this).2
+    have hs1 : s1.funcs = [] ∧ s1.globalCode = [] ∧ s1.functionsCode = [] := by
+      have : programStart ({} : St) = .ok ((), s1) := h1
+      simp [programStart, addStartLine, Tr.modify, bind] at this
+      rw [← this]; exact ⟨rfl, rfl, rfl⟩
+    obtain ⟨cmds, n, ad, sim⟩ := stmtsT_sem none p hf hn s1 s2 hs1.1 h2
+    refine ⟨s, cmds, ?_, ?_⟩
+    · rw [← hc, e3]
+      have hcode : s2.globalCode.reverse = flats none cmds := by
+        rw [ad.code, hs1.2.1, List.append_nil, List.reverse_reverse]
+      have hfc : s2.functionsCode = [] := by rw [ad.fcode]; exact hs1.2.2
+      simp [dumpLines, hcode, hfc]
+    · intro fuel o out hr
+      unfold Src32.runProgram at hr
+      split at hr
+      · rename_i o' c' hr'
+        simp only [Option.some.injEq, Prod.mk.injEq] at hr
+        obtain ⟨rfl, rfl⟩ := hr
+        obtain ⟨ρ', ex, post⟩ := sim fuel Src.SCfg.init o' c' hr' startStore (by intro x v hx; simp [Src.SCfg.init] at hx)
+        refine ⟨⟨ρ', c'.out⟩, ex, rfl, fun ho => ?_⟩
+        show ρ' "_e" = "0"
+        rw [(post (by intro k; rw [ho]; simp)).2.1]; exact set_same _ _ _
+      · simp at hr
+  · simp at hc
+  · simp at hc
 
 end Tsh.C05S
